@@ -98,10 +98,25 @@ def reads_state(e):
     return False
 
 
+def _walk_evaluated(e):
+    '''the nodes that are evaluated when e is: the body of a lambda that is only created (not called on the spot) is not'''
+    stack = [e]
+    called = set()
+    while stack:
+        n = stack.pop()
+        yield n
+        if isinstance(n, ast.Call) and isinstance(n.func, ast.Lambda):
+            called.add(id(n.func))
+        if isinstance(n, ast.Lambda) and id(n) not in called:
+            stack.extend(d for d in list(n.args.defaults) + [k for k in n.args.kw_defaults if k is not None])
+            continue
+        stack.extend(ast.iter_child_nodes(n))
+
+
 def is_pure(e):
     '''conservative: an expression whose evaluation has no effect and whose value does not depend on when it is evaluated
     (as long as the names / attributes it reads are not written in between -- checked by the caller)'''
-    for n in ast.walk(e):
+    for n in _walk_evaluated(e):
         if isinstance(n, (ast.Yield, ast.YieldFrom, ast.Await, ast.NamedExpr)):
             return False
         if isinstance(n, ast.Call):
@@ -253,6 +268,23 @@ class _Expr(ast.NodeTransformer):
                     return at(ast.UnaryOp(op=ast.Not(), operand=x), node)
                 if (isinstance(op, (ast.NotEq, ast.Gt)) and r.value == 0) or (isinstance(op, ast.GtE) and r.value == 1):
                     return at(ast.Call(func=ast.Name(id='bool', ctx=ast.Load()), args=[x], keywords=[]), node)
+            # bool(x) == True / is True -> bool(x);  bool(x) == False / is False -> not x   (and the != / is not forms); also with the
+            # constant on the left.  `not x` and comparisons are booleans as well.
+            def _boolish(e):
+                return (isinstance(e, ast.Call) and isinstance(e.func, ast.Name) and e.func.id == 'bool' and len(e.args) == 1 and not e.keywords) or \
+                    (isinstance(e, ast.UnaryOp) and isinstance(e.op, ast.Not)) or isinstance(e, ast.Compare)
+            if isinstance(op, (ast.Eq, ast.NotEq, ast.Is, ast.IsNot)):
+                for a_, b_ in ((l, r), (r, l)):
+                    if _boolish(a_) and isinstance(b_, ast.Constant) and type(b_.value) is bool:
+                        positive = b_.value == isinstance(op, (ast.Eq, ast.Is))
+                        if positive:
+                            return a_
+                        inner = a_.args[0] if isinstance(a_, ast.Call) else a_
+                        return self.visit(at(ast.UnaryOp(op=ast.Not(), operand=inner), node))
+            # <constant> is [not] None  ->  True / False
+            if isinstance(op, (ast.Is, ast.IsNot)) and isinstance(l, ast.Constant) and isinstance(r, ast.Constant) and (l.value is None or r.value is None):
+                same = l.value is None and r.value is None
+                return at(ast.Constant(value=same if isinstance(op, ast.Is) else not same), node)
             # 'c' == x -> x == 'c'   (a constant operand of == / != stands on the right)
             if isinstance(op, (ast.Eq, ast.NotEq)) and isinstance(l, ast.Constant) and not isinstance(r, ast.Constant):
                 node.left, node.comparators = r, [l]
@@ -293,6 +325,11 @@ class _Expr(ast.NodeTransformer):
             if not (isinstance(node.args[1], ast.Tuple)):
                 idx = node.args[1] if len(node.args) == 2 else at(ast.Tuple(elts=[node.args[1], node.args[2]], ctx=ast.Load()), node)
                 return at(ast.Subscript(value=ast.Attribute(value=f.value, attr=node.args[0].value, ctx=ast.Load()), slice=idx, ctx=ast.Load()), node)
+        # str() -> ''   int() -> 0   float() -> 0.0   bool() -> False   tuple() -> ()
+        if isinstance(f, ast.Name) and not node.args and not node.keywords and f.id in ('str', 'int', 'float', 'bool', 'tuple'):
+            if f.id == 'tuple':
+                return at(ast.Tuple(elts=[], ctx=ast.Load()), node)
+            return at(ast.Constant(value={'str': '', 'int': 0, 'float': 0.0, 'bool': False}[f.id]), node)
         # getattr(X, 'name')  ->  X.name      (a constant identifier; no default)
         if isinstance(f, ast.Name) and f.id == 'getattr' and len(node.args) == 2 and not node.keywords and \
                 isinstance(node.args[1], ast.Constant) and isinstance(node.args[1].value, str) and node.args[1].value.isidentifier() and \
@@ -455,13 +492,24 @@ class _Expr(ast.NodeTransformer):
                 return at(ast.Call(func=ast.Name(id='dict', ctx=ast.Load()), args=[g.iter], keywords=[]), node)
         return node
 
+    def visit_Subscript(self, node):
+        self.generic_visit(node)
+        # X[a:len(X) - 1]  ->  X[a:-1]      (both upper bounds resolve to max(len(X) - 1, 0))
+        sl = node.slice
+        if isinstance(sl, ast.Slice) and sl.step is None and isinstance(sl.upper, ast.BinOp) and isinstance(sl.upper.op, ast.Sub) and \
+                isinstance(sl.upper.right, ast.Constant) and sl.upper.right.value == 1 and type(sl.upper.right.value) is int and \
+                isinstance(sl.upper.left, ast.Call) and isinstance(sl.upper.left.func, ast.Name) and sl.upper.left.func.id == 'len' and \
+                len(sl.upper.left.args) == 1 and not sl.upper.left.keywords and is_pure(node.value) and dump(sl.upper.left.args[0]) == dump(node.value):
+            sl.upper = at(ast.UnaryOp(op=ast.USub(), operand=ast.Constant(value=1)), sl.upper)
+        return node
+
     def visit_IfExp(self, node):
         self.generic_visit(node)
         if _is_negative(node.test):
             node.test = neg(node.test)
             node.body, node.orelse = node.orelse, node.body
         # A if A else B  ->  A or B      (A pure: evaluated once or twice makes no difference)
-        if is_pure(node.test) and not reads_state(node.test) and dump(node.test) == dump(node.body):
+        if is_pure(node.test) and dump(node.test) == dump(node.body):       # (nothing runs between the two evaluations)
             return at(ast.BoolOp(op=ast.Or(), values=[node.body, node.orelse]), node)
         # X if c else X  ->  X ;  None if X is None else X  ->  X      (both arms give the same value; the test is pure)
         if is_pure(node.test):
@@ -785,6 +833,8 @@ class FunctionNormalizer(object):
             self.pass_local_helpers()
             self.pass_scopes()
             self.pass_tuples()
+            self.pass_iterloops()
+            self.pass_first_of()
             self.pass_simple()
             self.pass_webs()
             self.pass_collections()
@@ -795,6 +845,68 @@ class FunctionNormalizer(object):
             self.pass_commute()
         ast.fix_missing_locations(self.fn)
         return self.fn
+
+    # -- explicit iterator loops ------------------------------------------------------------------------------
+    def pass_iterloops(self):
+        '''it = iter(X)                                   for T in X:
+           while True:                                        BODY
+               try:                    T = next(it)
+               except StopIteration:   break          ->
+               BODY
+        (`it` used nowhere else; the handler may also `return` when the loop is the last statement of the function; BODY may sit in
+        the `else:` of the try).  The try covers only the next() call, so a StopIteration raised by BODY propagates in both forms.'''
+        fn = self.fn
+        for owner, fld, lst in list(walk_lists(fn)):
+            for i in range(len(lst) - 1):
+                a, w = lst[i], lst[i + 1]
+                if not (isinstance(a, ast.Assign) and len(a.targets) == 1 and isinstance(a.targets[0], ast.Name) and isinstance(w, ast.While)):
+                    continue
+                it = a.targets[0].id
+                if not (isinstance(w.test, ast.Constant) and w.test.value in (True, 1) and not w.orelse and w.body and isinstance(w.body[0], ast.Try)):
+                    continue
+                t = w.body[0]
+                if not (len(t.body) == 1 and len(t.handlers) == 1 and not t.finalbody and isinstance(t.body[0], ast.Assign) and len(t.body[0].targets) == 1):
+                    continue
+                nx = t.body[0].value
+                if not (isinstance(nx, ast.Call) and isinstance(nx.func, ast.Name) and nx.func.id == 'next' and len(nx.args) == 1 and not nx.keywords and
+                        isinstance(nx.args[0], ast.Name) and nx.args[0].id == it):
+                    continue
+                h = t.handlers[0]
+                if not (isinstance(h.type, ast.Name) and h.type.id == 'StopIteration' and len(h.body) == 1):
+                    continue
+                last_of_fn = owner is fn and fld == 'body' and i + 1 == len(lst) - 1
+                if not (isinstance(h.body[0], ast.Break) or (isinstance(h.body[0], ast.Return) and h.body[0].value is None and last_of_fn)):
+                    continue
+                if not self._is_local(it) or len(self._all_names(it)) != 2:
+                    continue
+                tgt = t.body[0].targets[0]
+                if it in names_loaded(tgt) | names_stored(tgt):
+                    continue
+                e = a.value
+                if isinstance(e, ast.Call) and isinstance(e.func, ast.Name) and e.func.id == 'iter' and len(e.args) == 1 and not e.keywords:
+                    e = e.args[0]
+                body = list(t.orelse) + list(w.body[1:])
+                lst[i:i + 2] = [at(ast.For(target=tgt, iter=e, body=body or [at(ast.Pass(), w)], orelse=[]), w)]
+                return self.pass_iterloops()
+
+    def pass_first_of(self):
+        '''for T in X: return T   (last statement of the function, or followed by `return` / `return None`)   ->   return next(iter(X), None)'''
+        fn = self.fn
+        body = fn.body
+        if any(isinstance(n, (ast.Yield, ast.YieldFrom)) for s_ in body for n in local_walk(s_)):
+            return
+        k = len(body) - 1
+        if k >= 1 and isinstance(body[k], ast.Return) and (body[k].value is None or (isinstance(body[k].value, ast.Constant) and body[k].value.value is None)):
+            k -= 1
+        if k < 0:
+            return
+        lp = body[k]
+        if isinstance(lp, ast.For) and not lp.orelse and isinstance(lp.target, ast.Name) and len(lp.body) == 1 and isinstance(lp.body[0], ast.Return) and \
+                isinstance(lp.body[0].value, ast.Name) and lp.body[0].value.id == lp.target.id and self._is_local(lp.target.id) and \
+                len(self._all_names(lp.target.id)) == 2:
+            call = ast.Call(func=ast.Name(id='next', ctx=ast.Load()),
+                            args=[ast.Call(func=ast.Name(id='iter', ctx=ast.Load()), args=[lp.iter], keywords=[]), ast.Constant(value=None)], keywords=[])
+            body[k:] = [at(ast.Return(value=call), lp)]
 
     # -- independent neighbouring stores in one order ------------------------------------------------------
     def pass_commute(self):
@@ -858,11 +970,60 @@ class FunctionNormalizer(object):
             if cur == prev:
                 break
             prev = cur
+            self._light_constants()
             if self.restrict:
                 self._light_tuples()
                 self.pass_temps()
         ast.fix_missing_locations(self.fn)
         return self.fn
+
+    def _light_constants(self):
+        '''tests on constants (they come in with an inlined helper that was called with True / False / None): `if True:` is its
+        branch, `c is None`, `bool(x) == True`, `A if True else B` are decided'''
+        class C(ast.NodeTransformer):
+            def visit_Compare(s2, node):
+                s2.generic_visit(node)
+                if len(node.ops) != 1:
+                    return node
+                l, op, r = node.left, node.ops[0], node.comparators[0]
+                if isinstance(op, (ast.Is, ast.IsNot)) and isinstance(l, ast.Constant) and isinstance(r, ast.Constant) and (l.value is None or r.value is None):
+                    same = l.value is None and r.value is None
+                    return at(ast.Constant(value=same if isinstance(op, ast.Is) else not same), node)
+                if isinstance(op, (ast.Eq, ast.NotEq, ast.Is, ast.IsNot)):
+                    for a_, b_ in ((l, r), (r, l)):
+                        boolish = (isinstance(a_, ast.Call) and isinstance(a_.func, ast.Name) and a_.func.id == 'bool' and len(a_.args) == 1 and not a_.keywords) or \
+                            (isinstance(a_, ast.UnaryOp) and isinstance(a_.op, ast.Not)) or isinstance(a_, ast.Compare)
+                        if boolish and isinstance(b_, ast.Constant) and type(b_.value) is bool:
+                            if b_.value == isinstance(op, (ast.Eq, ast.Is)):
+                                return a_
+                            inner = a_.args[0] if isinstance(a_, ast.Call) else a_
+                            return at(ast.UnaryOp(op=ast.Not(), operand=inner), node)
+                return node
+
+            def visit_IfExp(s2, node):
+                s2.generic_visit(node)
+                if isinstance(node.test, ast.Constant) and isinstance(node.test.value, (bool, type(None))):
+                    return node.body if node.test.value else node.orelse
+                return node
+        for owner, fld, lst in list(walk_lists(self.fn)):
+            for i, st in enumerate(lst):
+                if isinstance(st, (ast.FunctionDef, ast.AsyncFunctionDef, ast.ClassDef)):
+                    continue
+                for f_ in st._fields:
+                    v_ = getattr(st, f_, None)
+                    if isinstance(v_, ast.expr):
+                        setattr(st, f_, C().visit(v_))
+                    elif isinstance(v_, list) and v_ and all(isinstance(x, ast.expr) for x in v_):
+                        setattr(st, f_, [C().visit(x) for x in v_])
+        for owner, fld, lst in list(walk_lists(self.fn)):
+            for i, st in enumerate(lst):
+                if isinstance(st, ast.If) and isinstance(st.test, ast.Constant) and isinstance(st.test.value, (bool, type(None))) and \
+                        not any(isinstance(n, (ast.Global, ast.Nonlocal)) for n in ast.walk(st)):
+                    taken = st.body if st.test.value else st.orelse
+                    lst[i:i + 1] = list(taken) or [at(ast.Pass(), st)]
+                    if len(lst) > 1:
+                        lst[:] = [x for x in lst if not isinstance(x, ast.Pass)] or [at(ast.Pass(), st)]
+                    return self._light_constants()
 
     def _light_tuples(self):
         '''a, b = x, y with only NEW local names on the left is split'''
@@ -1524,12 +1685,25 @@ class FunctionNormalizer(object):
                         continue
                     ok = True
                     for k, t in enumerate(ts[:-1]):
+                        if isinstance(t, ast.Attribute) and isinstance(t.value, ast.Name) and \
+                                all(isinstance(t2, (ast.Name, ast.Attribute)) and (isinstance(t2, ast.Name) or isinstance(t2.value, ast.Name)) for t2 in ts):
+                            # self.a, self.b = x, y: the later values neither call anything nor read an attribute of that name, and no
+                            # target rebinds the object stored to
+                            for v in vs[k + 1:]:
+                                if any(isinstance(n, (ast.Call, ast.Subscript, ast.Await, ast.Yield, ast.YieldFrom)) or
+                                       (isinstance(n, ast.Attribute) and n.attr == t.attr) for n in ast.walk(v)):
+                                    ok = False
+                            if any(isinstance(t2, ast.Name) and t2.id == t.value.id for t2 in ts):
+                                ok = False
+                            continue
                         if not isinstance(t, ast.Name):
                             ok = False
                             break
                         for v in vs[k + 1:]:
                             if t.id in names_loaded(v):
                                 ok = False
+                        if any(isinstance(t2, ast.Attribute) and isinstance(t2.value, ast.Name) and t2.value.id == t.id for t2 in ts[k + 1:]):
+                            ok = False
                     if not ok:
                         continue
                     lst[i:i + 1] = [at(ast.Assign(targets=[t], value=v), st) for t, v in zip(ts, vs)]
@@ -1981,6 +2155,55 @@ class FunctionNormalizer(object):
                     nm = st.body[0].targets[0].id
                     lst[i] = at(ast.Assign(targets=[ast.Name(id=nm, ctx=ast.Store())],
                                            value=ast.IfExp(test=st.test, body=st.body[0].value, orelse=st.orelse[0].value)), st)
+                    continue
+                # D = {'a': x, ..}; D['k'] = v   ->   D = {'a': x, .., 'k': v}      (a fresh local dictionary that is filled right away)
+                if isinstance(st, ast.Assign) and len(st.targets) == 1 and isinstance(st.targets[0], ast.Name) and isinstance(st.value, ast.Dict) and \
+                        all(isinstance(k_, ast.Constant) for k_ in st.value.keys) and i + 1 < len(lst) and self._is_local(st.targets[0].id):
+                    nxt = lst[i + 1]
+                    dn = st.targets[0].id
+                    if isinstance(nxt, ast.Assign) and len(nxt.targets) == 1 and isinstance(nxt.targets[0], ast.Subscript) and \
+                            isinstance(nxt.targets[0].value, ast.Name) and nxt.targets[0].value.id == dn and isinstance(nxt.targets[0].slice, ast.Constant) and \
+                            dn not in names_loaded(nxt.value) and not any(isinstance(n, (ast.Yield, ast.YieldFrom, ast.Await, ast.NamedExpr)) for n in ast.walk(nxt.value)):
+                        key = nxt.targets[0].slice
+                        hit = [k_ for k_, kn in enumerate(st.value.keys) if type(kn.value) is type(key.value) and kn.value == key.value]
+                        if not hit:
+                            st.value.keys.append(key)
+                            st.value.values.append(nxt.value)
+                            del lst[i + 1]
+                            continue
+                        if len(hit) == 1 and is_pure(st.value.values[hit[0]]) and not may_raise(st.value.values[hit[0]]) and \
+                                all(is_pure(v_) for v_ in st.value.values[hit[0] + 1:]) and is_pure(nxt.value):
+                            st.value.values[hit[0]] = nxt.value
+                            del lst[i + 1]
+                            continue
+                # for v in X: S.add(v)   ->   S |= X      (S a local that was created as an OrderedSet: MutableSet.__ior__ is that loop)
+                if isinstance(st, ast.For) and not st.orelse and isinstance(st.target, ast.Name) and len(st.body) == 1 and isinstance(st.body[0], ast.Expr) and \
+                        isinstance(st.body[0].value, ast.Call):
+                    c_ = st.body[0].value
+                    if isinstance(c_.func, ast.Attribute) and c_.func.attr == 'add' and isinstance(c_.func.value, ast.Name) and len(c_.args) == 1 and \
+                            not c_.keywords and isinstance(c_.args[0], ast.Name) and c_.args[0].id == st.target.id and \
+                            len(self._all_names(st.target.id)) == 2 and self._is_local(st.target.id):
+                        sn = c_.func.value.id
+                        plain = [a_ for a_ in ast.walk(self.fn) if isinstance(a_, ast.Assign) and any(isinstance(t_, ast.Name) and t_.id == sn for t_ in a_.targets)]
+                        other = [n for n in ast.walk(self.fn) if isinstance(n, ast.Name) and n.id == sn and isinstance(n.ctx, (ast.Store, ast.Del))]
+                        augs = [a_ for a_ in ast.walk(self.fn) if isinstance(a_, ast.AugAssign) and isinstance(a_.target, ast.Name) and a_.target.id == sn]
+                        if self._is_local(sn) and len(plain) == 1 and len(plain[0].targets) == 1 and len(other) == 1 + len(augs) and \
+                                all(isinstance(a_.op, ast.BitOr) for a_ in augs) and isinstance(plain[0].value, ast.Call) and not plain[0].value.args and \
+                                not plain[0].value.keywords and _kwdotted(plain[0].value.func) in ('xtuml.OrderedSet', 'OrderedSet', 'xtuml.tools.OrderedSet') and \
+                                sn not in names_loaded(st.iter):
+                            lst[i] = at(ast.AugAssign(target=ast.Name(id=sn, ctx=ast.Store()), op=ast.BitOr(), value=st.iter), st)
+                            continue
+                # if <constant>: A else: B  ->  A or B;   statements after a jump in the same list are unreachable
+                if isinstance(st, ast.If) and isinstance(st.test, ast.Constant) and isinstance(st.test.value, (bool, int, type(None))) and \
+                        not any(isinstance(n, (ast.Global, ast.Nonlocal)) for n in ast.walk(st)):
+                    taken = st.body if st.test.value else st.orelse
+                    lst[i:i + 1] = list(taken) or [at(ast.Pass(), st)]
+                    if len(lst) > 1 and any(isinstance(x, ast.Pass) for x in lst):
+                        lst[:] = [x for x in lst if not isinstance(x, ast.Pass)] or [at(ast.Pass(), st)]
+                    continue
+                if isinstance(st, (ast.Return, ast.Raise, ast.Continue, ast.Break)) and i + 1 < len(lst) and \
+                        not any(isinstance(n, (ast.FunctionDef, ast.ClassDef, ast.Global, ast.Nonlocal, ast.Yield, ast.YieldFrom)) for x in lst[i + 1:] for n in ast.walk(x)):
+                    del lst[i + 1:]
                     continue
                 # if c: a, b = E  else: a = x; b = y   ->   a, b = E if c else (x, y)      (locals; x, y do not read a / b)
                 if isinstance(st, ast.If) and st.body and st.orelse:
@@ -2599,7 +2822,7 @@ class FunctionNormalizer(object):
         subs = {dump(n) for n in ast.walk(value)}
         sub_bases = {dump(n.value) for n in ast.walk(value) if isinstance(n, ast.Subscript)}
         depends_on_content = any(isinstance(n, (ast.Subscript, ast.Call)) for n in ast.walk(value))
-        if reads_state(value):
+        if reads_state(value) and not isinstance(value, ast.Lambda):      # (the body of a lambda reads state when it is called, not here)
             # nothing with an effect on what the value reads may run between the definition and the uses
             roots = _state_roots(value)
             private = self._private_containers(roots, value)
@@ -2618,6 +2841,22 @@ class FunctionNormalizer(object):
                                 ([c_.key, c_.value] if isinstance(c_, ast.DictComp) else [c_.elt])
                             for part in parts:
                                 after_use |= {id(x) for x in ast.walk(part)}
+            # calls of the last statement that come after every use in left-to-right evaluation order (only for a simple statement
+            # whose expression has no conditional expression, lambda or comprehension, where source order is evaluation order)
+            evaluated_after_uses = set()
+            if span and isinstance(span[-1], (ast.Assign, ast.Expr, ast.Return)) and span[-1].value is not None and \
+                    not any(isinstance(x, (ast.IfExp, ast.Lambda, ast.ListComp, ast.SetComp, ast.DictComp, ast.GeneratorExp, ast.NamedExpr, ast.Await,
+                                           ast.Yield, ast.YieldFrom)) for x in ast.walk(span[-1].value)):
+                seq = [x for x in _source_order(span[-1].value)]
+                pos = {id(x): k_ for k_, x in enumerate(seq)}
+                use_pos = [pos[id(x)] for x in seq if isinstance(x, ast.Name) and x.id == name]
+                if use_pos:
+                    for x in seq:
+                        if isinstance(x, ast.Call) and pos[id(x)] > max(use_pos) and not any(isinstance(y, ast.Name) and y.id == name for y in ast.walk(x)):
+                            # the call node is reached after the last use and none of its parts is a use; it must not be an argument of
+                            # a call that started before the use (f(use, g()): g() runs before f consumes the value -- still after the
+                            # value was READ, which is what matters for a pure value)
+                            evaluated_after_uses.add(id(x))
             for k, s in enumerate(span):
                 for n in ast.walk(s):
                     if id(n) in after_use and k == len(span) - 1:
@@ -2635,6 +2874,8 @@ class FunctionNormalizer(object):
                         uses_name = any(isinstance(x, ast.Name) and x.id == name for x in ast.walk(n))
                         if uses_name and k == len(span) - 1:
                             continue      # the call that consumes the value
+                        if k == len(span) - 1 and id(n) in evaluated_after_uses:
+                            continue      # runs after the last use (left-to-right evaluation of a plain expression)
                         if private:
                             # only calls that can reach the private containers matter
                             mentions = any(isinstance(x, ast.Name) and x.id in roots for x in ast.walk(n))
@@ -3679,7 +3920,22 @@ class Normalizer(object):
                         ps = [x.arg for x in a.posonlyargs + a.args]
                         sig = None if (a.vararg or a.kwarg or a.kwonlyargs) else tuple(ps if static else ps[1:])
                         meths.setdefault(m.name, set()).add(sig)
-        self._method_sigs = {k: list(next(iter(v))) for k, v in meths.items() if len(v) == 1 and None not in v and k not in out}
+        # (methods of the other modules of the analysed program count as well: interpret.py calls NavChain.nav of xtuml.meta; names that
+        # builtin containers / strings also have are left out, the receiver may be one of those)
+        builtin_names = set(dir(dict)) | set(dir(list)) | set(dir(str)) | set(dir(set)) | set(dir(tuple)) | set(dir(object))
+        for m2 in getattr(self, 'program', {}).values():
+            if m2.tree is tree:
+                continue
+            for n in ast.walk(m2.tree):
+                if isinstance(n, ast.ClassDef):
+                    for m in n.body:
+                        if isinstance(m, ast.FunctionDef) and not (m.name.startswith('__') and m.name.endswith('__')):
+                            a = m.args
+                            static = any(isinstance(d, ast.Name) and d.id == 'staticmethod' for d in m.decorator_list)
+                            ps = [x.arg for x in a.posonlyargs + a.args]
+                            sig = None if (a.vararg or a.kwarg or a.kwonlyargs) else tuple(ps if static else ps[1:])
+                            meths.setdefault(m.name, set()).add(sig)
+        self._method_sigs = {k: list(next(iter(v))) for k, v in meths.items() if len(v) == 1 and None not in v and k not in out and k not in builtin_names}
         # defaults of the callables above (a trailing argument equal to its default can be left out)
         self._defaults = {}
         for n in ast.walk(tree):
@@ -3798,6 +4054,12 @@ class Normalizer(object):
                 if dump(fn.body) != before:
                     any_change = True
                     self._nested_first(fn)
+                    if self.light is None or q not in self.light:
+                        # calls that came in with the inlined helper (or were spliced from ** dictionaries) get the positional spelling, too
+                        b2 = dump(fn.body)
+                        self._positional(fn, self._signatures(mod.tree))
+                        if dump(fn.body) != b2:
+                            self._nested_first(fn)
         return any_change
 
     def _method(self, helpers, classes, cls, name):
@@ -3843,10 +4105,42 @@ class Normalizer(object):
         outer = self
 
         class V(ast.NodeTransformer):
+            def closure(s2, d, node, bound):
+                '''a helper with a body of several statements, used as a value: a nested def of fn with the receiver captured (the
+                bound method and the closure behave alike when called)'''
+                if d.name in pending:
+                    return at(ast.Name(id=d.name, ctx=ast.Load()), node)
+                a = clone(d.args)
+                body = [clone(x) for x in d.body if not (isinstance(x, ast.Expr) and isinstance(x.value, ast.Constant) and isinstance(x.value.value, str))]
+                if not body or any(isinstance(x, (ast.Yield, ast.YieldFrom, ast.Global, ast.Nonlocal)) for b in body for x in ast.walk(b)):
+                    return node
+                taken = {x.id for x in ast.walk(fn) if isinstance(x, ast.Name)} | {x.arg for x in ast.walk(fn) if isinstance(x, ast.arg)} | \
+                    {x.name for x in ast.walk(fn) if isinstance(x, ast.FunctionDef)}
+                if d.name in taken:
+                    return node
+                if bound:
+                    if not a.args or not isinstance(node.value, ast.Name):
+                        return node
+                    selfname = a.args[0].arg
+                    a.args = a.args[1:]
+                    recv = node.value.id
+                    inner = {x.id for b in body for x in ast.walk(b) if isinstance(x, ast.Name)} | {x.arg for x in ast.walk(a) if isinstance(x, ast.arg)}
+                    if any(isinstance(x, ast.Name) and x.id == selfname and isinstance(x.ctx, (ast.Store, ast.Del)) for b in body for x in ast.walk(b)):
+                        return node
+                    if selfname != recv:
+                        if recv in inner:
+                            return node
+                        body = [_Rename({selfname: recv}).visit(b) for b in body]
+                    if any(isinstance(x, ast.Name) and x.id == recv and isinstance(x.ctx, (ast.Store, ast.Del)) for x in ast.walk(fn)):
+                        return node
+                pending[d.name] = at(ast.FunctionDef(name=d.name, args=a, body=body, decorator_list=[], returns=None, type_comment=None,
+                                                     **({'type_params': []} if 'type_params' in ast.FunctionDef._fields else {})), node)
+                return at(ast.Name(id=d.name, ctx=ast.Load()), node)
+
             def lam(s2, d, node, bound):
                 body = [s for s in d.body if not (isinstance(s, ast.Expr) and isinstance(s.value, ast.Constant))]
                 if len(body) != 1 or not isinstance(body[0], ast.Return) or body[0].value is None:
-                    return node
+                    return s2.closure(d, node, bound)
                 a = clone(d.args)
                 expr = clone(body[0].value)
                 if bound and a.args:
@@ -3873,7 +4167,14 @@ class Normalizer(object):
                 if d is not None and d is not fn and node.id not in names_stored(fn):
                     return s2.lam(d, node, False)
                 return node
+        pending = {}
         V().visit(fn)
+        for name_, d_ in pending.items():
+            # the nested def goes right before the first statement of fn that mentions it
+            doc = 1 if fn.body and isinstance(fn.body[0], ast.Expr) and isinstance(fn.body[0].value, ast.Constant) else 0
+            pos = next((k for k, st in enumerate(fn.body) if k >= doc and any(isinstance(x, ast.Name) and x.id == name_ for x in ast.walk(st))), doc)
+            fn.body.insert(pos, d_)
+            ast.fix_missing_locations(fn)
 
 
 def normalise_modules(modules):
